@@ -64,7 +64,7 @@ func init() {
 		level: "fault_enumeration",
 		rule: "the classification table {ContinueOnError} x {ContinueOnPanic} x {IncludeContextExpirationErrors} x ExcludedErrors{none, the injected error, unrelated} x failure kind {plain, %w-wrapped, typed, panic(error), panic(string), panic(int), " +
 			"panic(io.EOF), panic(wrapped skip), ErrIteratorSkip, io.EOF, ErrCurrentOpAbort, context.Canceled} is enumerated COMPLETELY for each of 5 constructs (ProcessParallel, ParallelForEach, itertool.Worker, Map, GenerateParallel) in both tiers; " +
-			"collector {default, erc.Collector, custom pair}, workers {1,2,4,8}, n (50*w+.. or small), failure position(s) {first, last, middle, random, pair}, worker speed and GOMAXPROCS are drawn per cell (thorough: 60 draws per cell). " +
+			"collector {default, erc.Collector, custom pair}, workers {1,2,4,8}, n (50*w+.. or small), failure position(s) {first, last, middle, random, pair}, worker speed and GOMAXPROCS are drawn per cell (thorough: 120 draws per cell). " +
 			"Oracle: every failure that happened is found by errors.Is (ErrRecoveredPanic for panics), unreportable kinds never appear, nil iff nothing reportable, exactly-once processing and complete output in continue modes, " +
 			"failing goroutine handles no further item and <= 2w+1 items start after the first failure in abort modes (an exceedance is confirmed by re-execution). distinct_nontrivial = distinct (construct, flags, excluded, kind) cells decided",
 		assumptions: append([]string{"ErrCurrentOpAbort returned by the user function: only no-panic and termination are asserted (DESIGN 7c)",
